@@ -28,7 +28,7 @@ RULE = (
     "Generated: (tree) context trees of depth <= 3, fan-out <= 4, children sequential or concurrent asyncio tasks, every context issues "
     ">= 1 wire request in its subtree (1-3 per leaf with drawn delay before the first send, service time, gaps), 1-3 clients in one "
     "loop, some sub-requests fail after having been on the wire (their parent handles the error); (composite) operation type 'composite' "
-    "with nested streams or a sequential list whose k-th operation fails with HTTP 503 under on-error=continue, 1-3 leaf operations per stream, max-connections in "
+    "with nested streams (in a class one sub-request fails while sibling streams are on the wire and the client carries on with 1-2 further requests) or a sequential list whose k-th operation fails with HTTP 503 under on-error=continue, 1-3 leaf operations per stream, max-connections in "
     "{unbounded,1,2}, run by the real AsyncExecutor for 1-3 clients. Non-trivial = some context has >= 2 concurrent children and the "
     "child that ends first is not the one that started first. Distinct = distinct canonical JSON."
 )
@@ -38,7 +38,8 @@ ASSUMPTIONS = [
     "instants are dyadic rationals; exact comparison with 1e-9 tolerance",
 ]
 BUDGET = {"quick": 2500, "thorough": 20000}
-REQUIRED_CLASSES = {"concurrent-first-end-not-first-start": 100, "composite": 500, "multi-client": 500, "failing-sub-request": 200, "empty-nested-context": 100}
+REQUIRED_CLASSES = {"concurrent-first-end-not-first-start": 100, "composite": 500, "multi-client": 500, "failing-sub-request": 200, "empty-nested-context": 100,
+                    "failing-sub-request-in-concurrent-streams": 40, "previous-request-still-on-the-wire": 10}
 TOL = 1e-9
 
 DELAYS = [0, 0, 1 / 1024, 1 / 64, 1 / 8, 0.5]
@@ -110,12 +111,19 @@ def _case(draw):
     else:
         for _ in range(draw(st.integers(1, 3))):
             streams.append({"stream": draw(_stream(1, counter))})
+    iterations = draw(st.integers(1, 2))
+    if streams and "stream" in streams[0] and draw(st.integers(0, 3)) == 0:
+        # a sub-request of one of several concurrent streams fails while its siblings may still be on the wire; the client carries on
+        # with its next request (on-error=continue) while what is left of the failed one is torn down or runs out
+        leafs = _leaf_ops(streams, [])
+        leafs[draw(st.integers(0, len(leafs) - 1))]["sim"]["fails"] = True
+        iterations = draw(st.integers(2, 3))
     return {
         "kind": "composite",
         "n_clients": n_clients,
         "requests": streams,
         "max_connections": draw(st.sampled_from([None, None, 1, 2])),
-        "iterations": draw(st.integers(1, 2)),
+        "iterations": iterations,
         "perf_offset": draw(st.sampled_from([0.0, 500.5])),
     }
 
@@ -265,7 +273,7 @@ class _LeafRunner:
         for gap, service in sim["wires"]:
             if gap:
                 await asyncio.sleep(gap)
-            await es.wire(service, {"op": params["name"]})
+            await es.wire(service, {"op": params["name"], "seq": sim.get("seq")})
         if sim["post"]:
             await asyncio.sleep(sim["post"])
         if sim.get("fails"):
@@ -282,10 +290,17 @@ class _CompositeSource:
 
     infinite = True
 
+    _seq = 0
+
     def params(self):
         import copy
 
-        return copy.deepcopy(self._params)
+        p = copy.deepcopy(self._params)
+        # every request (one call of params()) gets a number that its sub-requests carry onto the wire
+        _CompositeSource._seq += 1
+        for leaf in _leaf_ops(p["requests"], []):
+            leaf["sim"]["seq"] = _CompositeSource._seq
+        return p
 
 
 def _leaf_ops(items, acc):
@@ -330,7 +345,7 @@ def _run_composite(case, n_clients):
             samples = sampler.samples
         finally:
             kernel.current_proc.reset(token)
-    return samples, w.wire_log
+    return samples, w.wire_log + w.wire_cancelled
 
 
 def _deps(sample):
@@ -362,13 +377,52 @@ def _check_composite(case, obs):
         if not obs.check(len(mine) == case["iterations"], "sample-count", f"client {ci}: {len(mine)} samples for {case['iterations']} iterations"):
             continue
         wires = [x for x in wire_log if x["es_client_id"] == ci]
-        # wires of iteration k: contiguous in time between sample boundaries -> split by count
-        per_iter = len(wires) // case["iterations"]
+        # wires of iteration k: those that carry the number of the client's k-th request
+        seqs = sorted({x["seq"] for x in wires})
+        if not obs.check(len(seqs) == case["iterations"], "requests-on-the-wire", f"client {ci}: sub-requests of {len(seqs)} requests on the wire, {case['iterations']} iterations"):
+            continue
+        failing_leaf = next((l for l in leafs if l["sim"].get("fails")), None)
+        concurrent_failure = failing_leaf is not None and any("stream" in x for x in case["requests"])
         for k, s in enumerate(mine):
-            ws = wires[k * per_iter : (k + 1) * per_iter]
+            ws = [x for x in wires if x["seq"] == seqs[k]]
+            if concurrent_failure:
+                # The request ends when the failing sub-request raises; its siblings are torn down or run out later (possibly while the
+                # client's next request is under way). What the request reports covers the sub-requests that were complete by then
+                # (a sub-request still in flight has no end yet); whatever happens afterwards belongs to no other request either.
+                fw = [x for x in ws if x["op"] == failing_leaf["name"] and not x.get("cancelled")]
+                if not obs.check(len(fw) == len(failing_leaf["sim"]["wires"]), "failing-sub-request-never-sent", f"client {ci} iteration {k}: {failing_leaf['name']} not on the wire"):
+                    continue
+                raised = max(x["pc_end"] for x in fw) + failing_leaf["sim"]["post"]
+                done, optional = [fw], []
+                for leaf in leafs:
+                    lw = [x for x in ws if x["op"] == leaf["name"]]
+                    if leaf is failing_leaf:
+                        continue
+                    complete = len(lw) == len(leaf["sim"]["wires"]) and not any(x.get("cancelled") for x in lw)
+                    if complete and max(x["pc_end"] for x in lw) + leaf["sim"]["post"] < raised - TOL:
+                        done.append(lw)
+                    else:
+                        # still under way when the failure ended the request (or finishing at that very instant): whether its nested context
+                        # is left - by cancellation or regularly - before the request's context is depends on where the streams sit in
+                        # the composite; what it had sent (answered) by then may or may not be included
+                        optional.extend(x for x in lw if x["pc_start"] <= raised + TOL)
+                base_s = min(x["pc_start"] for lw in done for x in lw)
+                base_e = max(x["pc_end"] for lw in done for x in lw)
+                starts = {base_s} | {x["pc_start"] for x in optional if x["pc_start"] < base_s}
+                ends = {base_e} | {x["pc_end"] for x in optional if not x.get("cancelled") and base_e < x["pc_end"] <= raised + TOL}
+                got_end = s.request_start + s.service_time
+                obs.check(any(abs(s.request_start - v) <= TOL for v in starts), "context-start-not-earliest",
+                          f"client {ci} iteration {k} (a sub-request failed at {raised}): request_start {s.request_start}, admissible earliest sub-request starts {sorted(starts)}")
+                obs.check(any(abs(got_end - v) <= TOL for v in ends), "failed-composite-end",
+                          f"client {ci} iteration {k} (a sub-request failed at {raised}): request ends at {got_end}, admissible latest sub-request ends {sorted(ends)}")
+                obs.check(s.request_meta_data.get("success") is False, "failed-composite-success-flag", f"client {ci}: meta {s.request_meta_data}")
+                obs.cls("failing-sub-request", "failing-sub-request-in-concurrent-streams")
+                if k > 0 and any(x["pc_end"] > min(y["pc_start"] for y in ws) + TOL for x in wires if x["seq"] == seqs[k - 1]):
+                    obs.cls("previous-request-still-on-the-wire")
+                continue
             s_ref = min(x["pc_start"] for x in ws)
-            e_ref = max(x["pc_end"] for x in ws)
             obs.check(abs(s.request_start - s_ref) <= TOL, "context-start-not-earliest", f"client {ci} iteration {k}: request_start {s.request_start}, earliest sub-request sent at {s_ref}")
+            e_ref = max(x["pc_end"] for x in ws)
             obs.check(
                 abs(s.service_time - (e_ref - s_ref)) <= TOL,
                 "composite-service-time",
